@@ -40,7 +40,7 @@ def run(chk: core.Check):
                 "non-trivial = at least two different threads move and at least one event is emitted; distinct by canonical JSON")
     chk.proofs(["Common", "C11"])
     rng = chk.rng
-    corpus = [json.loads(p.read_text()) for p in sorted((core.VERIF / "corpus" / "C11").glob("*.json"))]
+    corpus = [json.loads(p.read_text()) for p in sorted((core.VERIF / "corpus" / "C11").glob("*.json")) if not p.name.startswith(("plan_", "producer_"))]
     n = 24 if quick else 300
     scenarios = [dict(RACE), dict(LIMIT)] + [dict(c) for c in corpus] + [U.gen_scenario(rng) for _ in range(n)]
     records = U.run_scenarios(chk, scenarios, "forced schedules")
@@ -71,6 +71,9 @@ def run(chk: core.Check):
     from harness.props import stateful_producer as SP
 
     chk.stages["stateful_producer"] = SP.stage(chk, (150 if quick else 3000) * (3 if chk.broken else 1))
+
+    # the plan level: the real ExecutionPlan.execute over scripted phases (flags, escaping KeyboardInterrupt) vs ModelE_C11.eplan
+    chk.stages["execution_plan"] = plan_stage(chk, (120 if quick else 3000) * (3 if chk.broken else 1))
 
     # free multi-phase runs with a stop request at a random event index
     n_free = (8 if quick else 80) * (10 if chk.broken else 1)
@@ -213,6 +216,146 @@ def stateful_stage(chk, n) -> dict:
     return {"runs": len(cases), "problems": bad}
 
 
+def plan_case(rng) -> dict:
+    phases = []
+    for _ in range(rng.randint(1, 5)):
+        phases.append({"enabled": rng.random() < 0.8, "body": rng.choice([0, 0, 1, 3]), "status": rng.choice(["SUCCESS", "FAILURE", "ERROR", "SKIP", "INTERRUPTED"]),
+                       "stop": rng.random() < 0.15, "limit": rng.random() < 0.15, "ki": rng.choices(["none", "before", "after"], [8, 2, 1])[0]})
+    return {"phases": phases, "stop0": rng.random() < 0.05}
+
+
+def run_plan(case: dict) -> list:
+    """The real ExecutionPlan.execute; engine.phases.execute is replaced by a scripted generator."""
+    import threading
+    from unittest import mock
+
+    import hypothesis
+
+    import schemathesis
+    from schemathesis.engine import Status, events
+    from schemathesis.engine import core as ecore
+    from schemathesis.engine.config import EngineConfig, ExecutionConfig, NetworkConfig
+    from schemathesis.engine.context import EngineContext
+    from schemathesis.engine.phases import Phase, PhaseName, PhaseSkipReason
+
+    names = [PhaseName.PROBING, PhaseName.EXAMPLES, PhaseName.COVERAGE, PhaseName.FUZZING, PhaseName.STATEFUL_TESTING]
+    engine = EngineContext(schema=schemathesis.openapi.from_dict(demo_schema()), stop_event=threading.Event(),
+                           config=EngineConfig(execution=ExecutionConfig(hypothesis_settings=hypothesis.settings(database=None)), network=NetworkConfig()))
+    if case["stop0"]:
+        engine.stop()
+    plan = ecore.ExecutionPlan([Phase(name=names[i], is_supported=True, is_enabled=ph["enabled"]) for i, ph in enumerate(case["phases"])])
+
+    def fake_execute(ctx, phase):
+        ph = case["phases"][names.index(phase.name)]
+        for _ in range(ph["body"]):
+            yield events.SuiteStarted(phase=phase.name)
+        if ph["stop"]:
+            ctx.stop()
+        if ph["limit"]:
+            ctx.control.has_reached_the_failure_limit = True
+        if ph["ki"] == "before":
+            raise KeyboardInterrupt
+        yield events.PhaseFinished(phase=phase, status=Status[ph["status"]], payload=None)
+        if ph["ki"] == "after":
+            raise KeyboardInterrupt
+
+    out, nbody = [], {}
+    with mock.patch.object(ecore.phases, "execute", fake_execute):
+        for ev in plan.execute(engine):
+            k = type(ev).__name__
+            if k == "EngineStarted":
+                out.append(["EvStart"])
+            elif k == "EngineFinished":
+                out.append(["EvFinish"])
+            elif k == "Interrupted":
+                out.append(["EvIntr"])
+            elif k == "PhaseStarted":
+                out.append(["EvPhaseStart", names.index(ev.phase.name)])
+            elif k == "PhaseFinished":
+                out.append(["EvPhaseFinish", names.index(ev.phase.name), ev.status.name, ev.phase.skip_reason == PhaseSkipReason.FAILURE_LIMIT_REACHED])
+            else:
+                i = names.index(ev.phase)
+                out.append(["EvBody", i, nbody.get(i, 0)])
+                nbody[i] = nbody.get(i, 0) + 1
+    return out
+
+
+def plan_wf_ref(evs: list) -> str | None:
+    """The property text on canonical plan-level events (independent of the Coq checker)."""
+    if not evs or evs[0] != ["EvStart"] or evs[-1] != ["EvFinish"] or sum(1 for e in evs if e[0] in ("EvStart", "EvFinish")) != 2:
+        return "not exactly one start first and one finish last"
+    open_, nxt = None, 0
+    for e in evs[1:-1]:
+        if e[0] == "EvPhaseStart":
+            if open_ is not None or e[1] != nxt:
+                return f"phase {e[1]} opened out of order / inside another phase"
+            open_, nxt = e[1], nxt + 1
+        elif e[0] == "EvPhaseFinish":
+            if open_ != e[1]:
+                return f"phase {e[1]} closed but not open"
+            open_ = None
+        elif e[0] == "EvBody" and open_ != e[1]:
+            return f"event of phase {e[1]} outside its phase"
+    if open_ is not None:
+        return f"phase {open_} was opened and never closed"
+    return None
+
+
+def plan_stage(chk, n) -> dict:
+    from harness.core import clist
+
+    rng = chk.rng
+    corpus = [json.loads(p.read_text()) for p in sorted((core.VERIF / "corpus" / "C11").glob("plan_*.json"))]
+    cases = corpus + [plan_case(rng) for _ in range(n)]
+    exprs = []
+    for c in cases:
+        phs = clist(["{| e_enabled := %s; e_body := %d; e_status := %s; e_stop := %s; e_limit := %s; e_ki := %s |}" % (
+            str(ph["enabled"]).lower(), ph["body"], ph["status"], str(ph["stop"]).lower(), str(ph["limit"]).lower(),
+            {"none": "KiNone", "before": "KiBeforeFinish", "after": "KiAfterFinish"}[ph["ki"]]) for ph in c["phases"]], "ephase")
+        exprs.append(f"eplan true {phs} {str(c['stop0']).lower()}")
+    model = core.coq_eval(["C11.Model_C11", "C11.ModelE_C11"], exprs)
+    bad = 0
+    for c, m in zip(cases, model):
+        real = run_plan(c)
+        mod = []
+        for e in m:
+            if isinstance(e, str):
+                mod.append([e])
+            else:
+                mod.append([e[0]] + [x if isinstance(x, (int, bool)) else (str(x) == "true" if str(x) in ("true", "false") else str(x)) for x in e[1:]])
+        chk.seen({"plan": c}, len(real) > 2)
+        if real != mod:
+            bad += 1
+            chk.disagree("ExecutionPlan.execute over scripted phases vs ModelE_C11.eplan", c, real, mod)
+        d = plan_wf_ref(real)
+        if d is not None:
+            bad += 1
+            chk.fail(f"plan level: {d}", c)
+    # end to end: Ctrl-C while the probing request is in flight (real engine, then the real CLI)
+    from unittest import mock
+
+    from schemathesis.engine.phases import probes
+
+    from harness.cli_util import run_cli
+
+    def ctrl_c(*a, **k):
+        raise KeyboardInterrupt
+
+    with mock.patch.object(probes, "run", ctrl_c):
+        evs, _ = run_engine(demo_schema(), default_responder, phases=["probing", "fuzzing"], workers=1, max_examples=1, seed=1)
+        d = U.stream_wf(evs, True)
+        chk.seen({"probing_interrupt": "engine"}, True)
+        if d is not None:
+            bad += 1
+            chk.fail(f"Ctrl-C during API probing: event stream not well formed: {d}", {"probing_interrupt": "engine"})
+        r = run_cli(demo_schema(), default_responder, ["--phases=fuzzing", "--max-examples=1"])
+        chk.seen({"probing_interrupt": "cli"}, True)
+        if r["exception"] is not None or "Internal Error" in r["output"]:
+            bad += 1
+            chk.fail("Ctrl-C during API probing: the CLI report crashed", {"probing_interrupt": "cli"}, detail=r["output"][-400:])
+    return {"runs": len(cases), "problems": bad, "with_escaping_interrupt": sum(1 for c in cases if any(p["ki"] != "none" for p in c["phases"]))}
+
+
 def arrive_code(a: str, lab: str) -> int:
     if a == "stutter":
         return 6 if lab == "S" else 13
@@ -221,6 +364,8 @@ def arrive_code(a: str, lab: str) -> int:
 
 def witness_fails(w) -> bool:
     """Replays a forced schedule on the real engine; the witness fails if the stream is not well formed."""
+    if "phases" in w:
+        return plan_wf_ref(run_plan(w)) is not None
     sc = dict(w)
     sc["ops"] = U.discover(tuple(sc["kinds"]), sc["max_examples"], sc["cof"])
     from harness.sched import run_forced
